@@ -858,20 +858,34 @@ def c13(ctx):
                        "distinct_calls": len(ref["calls"]), "differences": crossdiff})
     # free-running concurrency under the race detector
     race = ctx.build(race=True)
-    sp = subprocess.run([race, "conc", "stress", "-seed", str(ctx.seed), "-n", str(1500 if thorough else 300),
-                         "-goroutines", str(64 if thorough else 24)], capture_output=True, text=True, timeout=2400,
-                        env=dict(os.environ, GORACE="halt_on_error=0"))
-    racy = "DATA RACE" in sp.stderr or "fatal error: concurrent map" in sp.stderr
-    ss = None
-    try:
-        ss = json.loads(sp.stdout)
-    except ValueError:
-        pass
+    # several FRESH processes: lazily initialised package state is built under contention once per process, so every process
+    # is one more chance for an initialisation race to be observed
+    racy, ss, race_err = False, None, ""
+    nproc = 8 if thorough else 4
+    for k in range(nproc):
+        sp = subprocess.run([race, "conc", "stress", "-seed", str(ctx.seed * 100 + k), "-n", str(1500 if thorough else 200),
+                             "-goroutines", str(64 if thorough else 24)], capture_output=True, text=True, timeout=2400,
+                            env=dict(os.environ, GORACE="halt_on_error=0"))
+        this_racy = "DATA RACE" in sp.stderr or "fatal error: concurrent map" in sp.stderr
+        try:
+            one = json.loads(sp.stdout)
+        except ValueError:
+            one = None
+        if this_racy and not racy:
+            racy, race_err = True, sp.stderr[:3000]
+        if one is None and not this_racy:
+            raise Infra("race stress run failed (rc=%d): %s" % (sp.returncode, sp.stderr[-2000:]))
+        if one is not None:
+            if ss is None:
+                ss = one
+            else:
+                ss["calls"] += one["calls"]
+                ss["diffs"] = (ss.get("diffs") or []) + (one.get("diffs") or [])
+                ss["mutated"] = ss.get("mutated") or one.get("mutated")
+                ss["outBytes"] = ss.get("outBytes", 0) + one.get("outBytes", 0)
     if racy:
         ctx.mismatches.append({"what": "data-race", "fn": "concurrent workload", "expr": "", "list": [], "expected": "no report from the Go race detector",
-                               "observed": sp.stderr[:3000], "source": "race-stress"})
-    elif ss is None:
-        raise Infra("race stress run failed (rc=%d): %s" % (sp.returncode, sp.stderr[-2000:]))
+                               "observed": race_err, "source": "race-stress"})
     if ss:
         ctx.replayed += ss["calls"]
         for d in ss.get("diffs") or []:
@@ -884,7 +898,7 @@ def c13(ctx):
             ctx.mismatches.append({"what": "wrote-to-stdout", "fn": "concurrent workload", "expr": "", "list": [], "expected": "0 bytes",
                                    "observed": ss["outBytes"], "source": "race-stress"})
         ctx.stages.append({"stage": "race-stress", "kind": "free-running goroutines over shared slices, harness built with -race",
-                           "calls": ss["calls"], "goroutines": ss["goroutines"], "race_reported": racy})
+                           "calls": ss["calls"], "goroutines": ss["goroutines"], "fresh_processes": nproc, "race_reported": racy})
     ctx.assumptions.append("gated schedules interleave at stage-hook granularity only; data races are left to the Go race detector on the free-running run")
     # sessions: an event the specification rejects is a PURITY violation iff the same call, alone in a fresh process, answers differently
     rejected = sessions(ctx)
